@@ -6,6 +6,7 @@ import (
 	"fmt"
 	"log/slog"
 	"os"
+	"regexp"
 	"slices"
 	"strings"
 	"time"
@@ -53,7 +54,11 @@ func (cfg *Config) SetDisabledChecks(l []string) {
 		// add raw string: promql/series(prom)
 		disabled[s] = struct{}{}
 		// find any check name that matches string as regexp
-		re := strictRegex(s)
+		re, err := regexp.Compile("^" + s + "$")
+		if err != nil {
+			// promql/series(+tag) is a valid value but not a valid regexp
+			continue
+		}
 		for _, name := range checks.CheckNames {
 			if re.MatchString(name) {
 				disabled[name] = struct{}{}
